@@ -142,10 +142,11 @@ PlumbObs(r) == <<r.rc, r.e.pos, 0>> \o r.e.sink
 
 Result(api, sk, kk, n, L, R, ss, ks) ==
     LET e == Env0(L, ss, ks)
-    IN CASE api = "get" -> IF n = 0 THEN <<EINVAL, 0>> ELSE GetObs(GetChunk(sk, e, n, <<>>), n)
+    \* n = -1 stands for SSIZE_MAX + 1 (refused as invalid, like 0, without touching driver or memory)
+    IN CASE api = "get" -> IF n <= 0 THEN <<EINVAL, 0>> ELSE GetObs(GetChunk(sk, e, n, <<>>), n)
          [] api = "getam" -> GetObs(SrcOnce(sk, e, n), n)
          [] api = "geto" -> LET g == GetOctet(sk, e) IN <<g.rc, g.e.pos>> \o (IF g.rc > 0 THEN <<Tok(g.e.pos)>> ELSE <<170>>)
-         [] api = "put" -> IF n = 0 THEN <<EINVAL>> ELSE PutObs(PutChunk(kk, e, Tokens(0, n)))
+         [] api = "put" -> IF n <= 0 THEN <<EINVAL>> ELSE PutObs(PutChunk(kk, e, Tokens(0, n)))
          [] api = "putam" -> PutObs(SinkOnce(kk, e, Tokens(0, n)))
          [] api = "puto" -> PutObs(PutOctet(kk, e, 1))
          \* sts_some / sts_atmost / sts_n / sts_drain on endpoints without buffer extension fall back to the
@@ -197,11 +198,11 @@ Next == /\ phase[1] = "b" /\ ev' = Boot
         /\ LET api == phase[2]
                k == phase[3]
            IN \/ /\ api \in {"get", "getam"}
-                 /\ \E n \in 0..MaxN, L \in {MaxN + 1, 2}, ss \in Scripts(Beh, MaxScript) :
-                       (n > 0 \/ api = "get") /\ phase' = <<"c", api, k, 2, n, L, 0, ss, <<>>>>
+                 /\ \E n \in -1..MaxN, L \in {MaxN + 1, 2}, ss \in Scripts(Beh, MaxScript) :
+                       (n > 0 \/ api = "get") /\ (n < 0 => Len(ss) <= 1) /\ phase' = <<"c", api, k, 2, n, L, 0, ss, <<>>>>
               \/ /\ api \in {"put", "putam"}
-                 /\ \E n \in 0..MaxN, ks \in Scripts(Beh, MaxScript) :
-                       (n > 0 \/ api = "put") /\ phase' = <<"c", api, 2, k, n, 0, 0, <<>>, ks>>
+                 /\ \E n \in -1..MaxN, ks \in Scripts(Beh, MaxScript) :
+                       (n > 0 \/ api = "put") /\ (n < 0 => Len(ks) <= 1) /\ phase' = <<"c", api, 2, k, n, 0, 0, <<>>, ks>>
               \/ /\ api = "geto" /\ \E L \in {0, 1}, ss \in Scripts(Beh, 1) : phase' = <<"c", api, k, 2, 1, L, 0, ss, <<>>>>
               \/ /\ api = "puto" /\ \E ks \in Scripts(Beh, 1) : phase' = <<"c", api, 2, k, 1, 0, 0, <<>>, ks>>
               \/ /\ api \in PlApis
